@@ -4,8 +4,8 @@ import std
 
 SPEC = {
     'prop_files': ['theories/Properties/C10_msgpack.v'],
-    'coq_targets': ['theories/Properties/C10_msgpack.vo', 'theories/Wire/MsgpackProofs.vo', 'theories/Wire/MsgpackCorr.vo'],
-    'closure_dirs': ['theories/Wire/Msgpack.v', 'theories/Wire/MsgpackProofs.v', 'theories/Wire/MsgpackCorr.v',
+    'coq_targets': ['theories/Properties/C10_msgpack.vo', 'theories/Wire/MsgpackProofs.vo', 'theories/Wire/MsgpackRT.vo', 'theories/Wire/MsgpackCorr.vo'],
+    'closure_dirs': ['theories/Wire/Msgpack.v', 'theories/Wire/MsgpackProofs.v', 'theories/Wire/MsgpackRT.v', 'theories/Wire/MsgpackCorr.v',
                      'theories/Wire/Item.v', 'theories/Base/Outcome.v', 'theories/C10/MsgpackSpec.v',
                      'theories/C10/MsgpackProofs.v', 'theories/Gen/Consts.v'],
     'harness': 'wiremsgpack',
